@@ -316,3 +316,5 @@ func c06Workloads(r *Run) {
 	}
 	_ = goatorepo.Rpc{}
 }
+
+func protoUnmarshal(b []byte, m proto.Message) error { return proto.Unmarshal(b, m) }
